@@ -11,16 +11,16 @@ CHECKS = {
             'Every estimator call of the workload is compared with an independent float64 plug-in MI and its corollaries (symmetry, bounds, constant => 0, self => entropy). All pairs of set partitions up to n=6/7 are enumerated, so any structural error visible on <=7 rows is caught; larger inputs are sampled per structure class.',
             'Trusts the float64 oracle and the float32 tolerance; inputs beyond the generated classes are not covered.', '3/C01'),
 
-    'C02': ('metamorphic monitor (score before/after injective relabelling) + displaced-copy model to detect a mis-applied self-pair rule; pipeline runs with order-reversed value names',
+    'C02': ('metamorphic monitor (score before/after injective relabelling) + displaced-copy model to detect a mis-applied self-pair rule; pipeline runs with order-reversed value names; pairs one row apart at lengths around power-of-two block sizes; interpreted (JIT-off) pass',
             'Each case is scored before and after relabelling either side, with and without correction; the corrected score of non-identical pairs must equal the displaced-copy model rather than the plain score, so a self-pair rule triggered by anything weaker than element-wise identity is observed. Exhaustive for all partition pairs on <=5/6 rows x all injective maps; targeted family of equal-sum / equal-histogram pairs.',
             'Relabellings that make a non-identical pair identical are excluded from the corrected comparison. Trusts the C03 model.', '3/C02'),
-    'C03': ('reference-model monitor (explicit displaced-copy conditional entropies in float64) + planted-signal ranking family through the heuristic-name dispatch',
+    'C03': ('reference-model monitor (explicit displaced-copy conditional entropies in float64) + planted-signal ranking family through the heuristic-name dispatch; interpreted (JIT-off) pass; fault injection (numba unavailable)',
             'Every corrected score is compared with H(Y*|X)-H(Y|X) computed from the statement; all ordered partition pairs on <=6/7 rows (hence all row orders), row-order variants of random structures, and a planted family (>20 sigma margin) that the uncorrected score demonstrably fails.',
             'Trusts the float64 model; ranking corollary sampled over seeds at n in {4000, 8000, 16384}.', '3/C03'),
     'C04': ('process-level sanitizers on the JIT estimator: MALLOC_PERTURB_ matrix in fresh interpreters, NUMBA_BOUNDSCHECK=1, interpreted (JIT-off) pass under the bounds checks of numpy itself, in-process heap grooming, valgrind memcheck (thorough); bit-exact differential across executions; row model; metamorphic outside-sample insensitivity',
             'The same case list (exhaustive small partitions x all ratios, targeted unequal strata) runs in 6 differently poisoned/bounds-checked interpreters whose exit status and float bits are compared; a model of the sampling rule fixes which rows may be read, and altering feature values outside them must not change a bit.',
             'Red-zone tools miss in-bounds wrong reads (covered by the row model). MALLOC_PERTURB_ must reach numba NRT allocations (verified: the unfixed tree crashes/differs).', '3/C04'),
-    'C05': ('invariant at a hook: wrapper around core_ranking.mixed_rank_graph recomputes every emitted triplet from the frame it was given, with an independent coding and per-heuristic definitions',
+    'C05': ('invariant at a hook: wrapper around core_ranking.mixed_rank_graph recomputes every emitted triplet from the frame it was given, with an independent coding and per-heuristic definitions; default-size and identifier-like-target (> 2^15 conditioning values) batches',
             'Every triplet of every monitored batch (in-process pool, compute_batch_ranking path, real process pool) is recomputed by definition of the selected heuristic with the label as conditioning target; documented heuristic names are harvested from the repository at run time and must not degrade to constants.',
             'pearsonr/AMI of scipy/sklearn are trusted on the oracle codes; values contain no NUL and no None.', '3/C05'),
     'C06': ('set-model monitor at the batch boundary; sampler wrapped to record the offered candidates, pool wrapped to record evaluated tasks',
@@ -30,7 +30,7 @@ CHECKS = {
             'Every sampler call of every history is checked for: returned subset of offered, exactly min(cap, m) distinct, least-evaluated-first against the prior counts, +1 on exactly the selected keys, spread <= 1 on stable duplicate-free lists; all cap sequences on <=5/6 candidates are enumerated; the counts exported by the library and the task must equal the selections observed.',
             'Fairness asserted for duplicate-free lists only. Counter observed through the module attribute.', '3/C07'),
 
-    'C08': ('invariant at a hook: wrapper on compute_batch_ranking records rows in / triplets out and reads the checkpoint left by the previous batch; independent file reader + statistics.median as oracle',
+    'C08': ('invariant at a hook: wrapper on compute_batch_ranking records rows in / triplets out and reads the checkpoint left by the previous batch; independent file reader + median of the defined scores as oracle; aggregation step driven alone over score histories with undefined (NaN) scores',
             'For every streaming run the batches handed to the ranker must equal those of an independent reader of the file (subsampling, validity, batch trigger, tail rule), the invalid-line count must match, the grouped result / pairwise_ranks.tsv must be the per-pair median in ascending order, and at every batch boundary the on-disk checkpoint must hold the median of the batches so far. Exhaustive for rows<=12, batch<=5, subsampling<=3 and every single corrupted row.',
             'Scoring heuristics only (Constant writes no checkpoint). Python csv defines field counts. Cells contain no line breaks.', '3/C08'),
     'C09': ('schedule perturbation + differential oracle: fresh processes running the real task with the real process pool, per-task injected delays, per-run PYTHONHASHSEED; event log proves distinct completion orders',
@@ -46,16 +46,16 @@ CHECKS = {
     'C12': ('reference-model monitor: formulas derived from transformer names (table + fw-name parser) evaluated with scalar arithmetic; keep/drop rule re-evaluated; preset-union and vault-immutability monitors',
             'Every emitted cell of every (column class x transformer) case is compared with the formula its name states; every emitted column must satisfy the keep rule and every dropped candidate must fail it (borderline cases skipped); every ordered pair/triple of preset names must select exactly the union and leave the presets themselves unchanged.',
             'Finite inputs; 1-ulp library differences at exact .5 rounding boundaries are skipped.', '3/C12'),
-    'C13': ('reference-model monitor over histories of batches: set/Counter recomputation of coverage, cardinality, repetition histogram and rare-value table; differential across all compositions of the same row sequence; files of real task runs across mini-batch sizes',
+    'C13': ('reference-model monitor over histories of batches: set/Counter recomputation of coverage, cardinality, repetition histogram and rare-value table; differential across all compositions of the same row sequence; files of real task runs across mini-batch sizes; > 2^17 distinct values returning in later batches',
             'All 2^(n-1) compositions of row sequences with n<=9/11 are driven and every statistic must equal the exact recomputation and be identical across compositions; the files written by the ranking and rare-value tasks are compared across mini-batch sizes and with the recomputation.',
             'Cardinality exact below warm-up capacity (32-bit collisions re-examined).', '3/C13'),
     'C14': ('class-invariant monitor: shadow set maintained beside every sketch, len() compared at sampled prefixes, duplicates re-inserted around the warm-up boundary; monitoring subclass installed in the pipeline',
             'Exactness for <= 2^18 distinct values, 2% accuracy up to 2^19 (quick) / 2^21 (thorough), invariance under re-insertion of seen values (also after the switch, incl. full replay) and insertion order are checked on real sketches, including the exact boundary crossing with a duplicate arriving at a full warm-up set.',
             'Statistical 2% bound has > 8 sigma margin.', '3/C14'),
-    'C15': ('shadow-counter invariants checked after every update on several simultaneously live sketches/counters; one pass under NUMBA_BOUNDSCHECK=1',
+    'C15': ('shadow-counter invariants checked after every update on several simultaneously live sketches/counters and on the per-column counters the pipeline keeps; one pass under NUMBA_BOUNDSCHECK=1',
             'estimate >= true weight, estimate <= total weight, every row sums to the total; bounded counter never over-counts, is exact below its bound, never tracks more than bound keys; instances are interleaved so state shared between instances is observed.',
             'Integer weights, totals < 2^31.', '3/C15'),
-    'C16': ('renderer-as-specification round-trip monitor for csv / tab-separated / VW lines and namespace maps; admitted rows of the streaming loop compared with the well-formed rows',
+    'C16': ('renderer-as-specification round-trip monitor for csv / tab-separated / VW lines and namespace maps; admitted rows of the streaming loop compared with the well-formed rows; ob-vw / ob-csv sources through dataset info and the streaming loop',
             'Every generated table row is rendered and must be parsed back cell for cell (CSV with both quoting styles and with the delimiter arguments real callers pass; tab-separated rows with empty edge cells and exotic whitespace; VW lines with shuffled/omitted/unknown namespaces, many lines per header in one process); rows with a wrong field count must be rejected whole.',
             'Cells without line breaks; VW prefix = first two characters of the joined token string.', '3/C16'),
 
